@@ -208,10 +208,101 @@ def check_unscripted_panic(tr):
     return bad
 
 
+def check_stuck(tr):
+    """operations must return: nothing panicked, nothing is frozen, yet the threads wait forever"""
+    c = tr.case
+    if (tr.stuck() or tr.hang) and not c.frozen and not any(o.panic for o in tr.ops):
+        waiting = [o for o in tr.ops if o.ret is None]
+        return ["`%s` called at line %d never returns (every runnable thread spins)" % (" ".join(o.toks), o.call) for o in waiting[:2]] or ["stuck"]
+    return []
+
+
+def check_ks_events(tr):
+    """known-size kinds: every atomic access reads the value the previous accesses of that slot left (a clone
+    starts at the value loaded from its original), and every operation's result is what a cursor at the value it
+    read must return. This is linearizability of each slot, checked event by event."""
+    c = tr.case
+    if c.is_iter():
+        return []
+    bad = []
+    n = c.src_len()
+    W = 1 << 64
+    ctr = {0: 0}
+    for k in range(c.iters):
+        ctr[k] = 0
+    def slot_of(loc):
+        return 0 if loc == "ctr" else int(loc[3:])
+    for oi in tr.ops:
+        pass
+    # pass 1: counters in trace order
+    pending_clone = {}
+    ops_by_line = {}
+    for oi in tr.ops:
+        for (line, ev) in oi.events:
+            ops_by_line[line] = oi
+    for i, line in enumerate(tr.lines):
+        t = line.split()
+        if len(t) < 3 or t[1] != "at":
+            continue
+        k = slot_of(t[2])
+        if k not in ctr:
+            bad.append("access to an iterator slot that was never created (line %d)" % i)
+            continue
+        if t[3] == "faa":
+            r, a = int(t[5]), int(t[6])
+            if r != ctr[k]:
+                bad.append("slot %d: fetch_add at line %d read %d, the accesses before it leave %d" % (k, i, r, ctr[k]))
+            ctr[k] = (r + a) % W
+        elif t[3] == "st":
+            v = int(t[5])
+            if v != n:
+                bad.append("slot %d: store of %d at line %d (skip_to_end must store the length %d)" % (k, v, i, n))
+            ctr[k] = v
+        elif t[3] == "ld":
+            v = int(t[5])
+            if v != ctr[k]:
+                bad.append("slot %d: load at line %d read %d, the accesses before it leave %d" % (k, i, v, ctr[k]))
+            oi = ops_by_line.get(i)
+            if oi is not None and oi.op == "clone":
+                ctr[int(oi.toks[1])] = v
+    # pass 2: results against the value each operation read
+    for oi in tr.ops:
+        if oi.panic or oi.ret is None:
+            continue
+        ats = [ev for (_, ev) in oi.events if ev[0] == "at"]
+        if oi.op in ("next", "nextv") and len(ats) == 1 and ats[0][2] == "faa":
+            r = int(ats[0][4])
+            want = (["item", str(r), str(c.val_at(r))] if oi.op == "next" else ["value", str(c.val_at(r))]) if r < n else ["end"]
+            if oi.rtoks != want:
+                bad.append("`%s` read counter %d and returned `%s`, expected `%s` (line %d)" % (oi.op, r, " ".join(oi.rtoks), " ".join(want), oi.ret))
+        elif oi.op in ("chunk", "bufnext") and len(ats) == 1 and ats[0][2] == "faa" and oi.n is not None:
+            r = int(ats[0][4])
+            b = min(r, n)
+            e = min(b + oi.n, n)
+            if oi.rtoks[0] == "end":
+                if e > b:
+                    bad.append("chunk pull read counter %d with %d elements left and reported the end (line %d)" % (r, n - b, oi.ret))
+            else:
+                gb, ga = int(oi.rtoks[1]), int(oi.rtoks[2])
+                if (gb, ga) != (b, e - b):
+                    bad.append("chunk pull read counter %d: returned begin %d / %d elements, expected begin %d / %d (line %d)" % (r, gb, ga, b, e - b, oi.ret))
+        elif oi.op == "len" and len(ats) == 1:
+            r = int(ats[0][4])
+            want = ["len", str(max(0, n - r))]
+            if oi.rtoks != want:
+                bad.append("try_get_len read counter %d and returned `%s`, expected `%s` (line %d)" % (r, " ".join(oi.rtoks), " ".join(want), oi.ret))
+        elif oi.op == "hasmore" and len(ats) == 1:
+            r = int(ats[0][4])
+            want = ["more", "no"] if r >= n else ["more", "yes", str(n - r)]
+            if oi.rtoks != want:
+                bad.append("has_more read counter %d and returned `%s`, expected `%s` (line %d)" % (r, " ".join(oi.rtoks), " ".join(want), oi.ret))
+    return bad
+
+
 # ---- C01 -----------------------------------------------------------------------------------------
 
 def check_C01(tr):
-    bad = check_no_dup(tr) + check_unscripted_panic(tr)
+    bad = check_no_dup(tr) + check_unscripted_panic(tr) + check_stuck(tr)
     c = tr.case
     if quiet_case(tr) and c.iters == 1 and (not c.is_iter() or c.fused()) and not c.has_op("get", "clone"):
         # "until each has observed the end": every thread's last pull saw the end
@@ -227,7 +318,7 @@ def check_C01(tr):
 
 
 def check_C02(tr):
-    return check_fidelity(tr) + check_unscripted_panic(tr)
+    return check_fidelity(tr) + check_unscripted_panic(tr) + check_ks_events(tr)
 
 
 # ---- C03 -----------------------------------------------------------------------------------------
@@ -273,7 +364,7 @@ def check_C03(tr):
 def check_C04(tr):
     bad = []
     c = tr.case
-    bad += check_sequential(tr)
+    bad += check_sequential(tr) + check_ks_events(tr) + check_stuck(tr)
     if c.has_op("skip", "get") or (c.is_iter() and not c.fused()):
         return bad
     pulls = [o for o in tr.pulls() if o.slot == 0]
@@ -511,7 +602,8 @@ def check_C08(tr):
 def check_C15(tr):
     if tr.aborted or tr.hang:
         return []
-    bad = []
+    # an element that is neither handed out nor dropped is leaked (with whatever it owns)
+    bad = [b for b in check_C08(tr) if "0 time(s), dropped by the iterator 0 time(s)" in b] if not tr.case.has_op("skip", "get") else []
     if tr.fin.get("live", 0) != 0 or tr.fin.get("blocks", 0) != 0:
         bad.append("%d bytes in %d blocks still allocated after the iterator and everything obtained from it were dropped" % (tr.fin.get("live", 0), tr.fin.get("blocks", 0)))
     return bad
@@ -663,6 +755,7 @@ def check_C12(tr):
     bad += check_fidelity(tr)
     bad += check_no_dup(tr)
     bad += check_unscripted_panic(tr)
+    bad += check_stuck(tr)
     if quiet_case(tr) and (not c.is_iter() or c.fused()) and all(o.ret is not None and not o.panic for o in loops):
         # every thread that pulls ends with a loop => everything is visited exactly once overall
         got = sorted(delivered_positions(tr))
@@ -714,7 +807,12 @@ def check_C18(tr):
     return bad
 
 
+def check_C19(tr):
+    return check_ks_events(tr) + check_sequential(tr) + check_fidelity(tr) + check_unscripted_panic(tr)
+
+
 MONITORS = {
+    "C19": check_C19,
     "C01": check_C01, "C02": check_C02, "C03": check_C03, "C04": check_C04, "C05": check_C05,
     "C06": check_C06, "C07": check_C07, "C08": check_C08, "C09": check_C09, "C10": check_C10,
     "C11": check_C11, "C12": check_C12, "C15": check_C15, "C16": check_C16, "C18": check_C18,
